@@ -1,2 +1,779 @@
+//! C34: tensor file formats round-trip and reject malformed files.
+//!
+//! Statement decided: "Writing any tensor of a supported element type (from
+//! any memory layout) to .npy, .npz or .safetensors and reading it back yields
+//! the same shape, element type and elements, and reading arbitrary bytes
+//! returns a value or an error without panicking or hanging."
+//!
+//! Round trip: the source is a base tensor plus a chain of layout operations
+//! (permute / strided slice / broadcast) applied with rten-tensor; the expected
+//! elements are computed independently with `vcommon::naive::Arr`. Elements
+//! are compared as: both NaN, or IEEE-equal (a changed sign of zero or NaN
+//! payload is counted, not reported: "same elements" does not say "bits").
+//! Malformed files: see c34mal.rs.
+use crate::c34mal;
+use rten_serialize::{DataType, Value, View, npy, npz, safetensors};
+use rten_tensor::prelude::*;
+use rten_tensor::{SliceItem, Tensor, TensorView};
+use std::io::Cursor;
+use vcommon::naive::Arr;
 use vcommon::*;
-pub fn run(_args: &Args) {}
+
+pub const DTYPES: [DataType; 11] = [
+    DataType::Bool,
+    DataType::Int8,
+    DataType::Int16,
+    DataType::Int32,
+    DataType::Int64,
+    DataType::UInt8,
+    DataType::UInt16,
+    DataType::UInt32,
+    DataType::UInt64,
+    DataType::Float32,
+    DataType::Float64,
+];
+
+pub fn dt_name(d: DataType) -> &'static str {
+    match d {
+        DataType::Bool => "bool",
+        DataType::Int8 => "i8",
+        DataType::Int16 => "i16",
+        DataType::Int32 => "i32",
+        DataType::Int64 => "i64",
+        DataType::UInt8 => "u8",
+        DataType::UInt16 => "u16",
+        DataType::UInt32 => "u32",
+        DataType::UInt64 => "u64",
+        DataType::Float32 => "f32",
+        DataType::Float64 => "f64",
+        _ => "?",
+    }
+}
+
+pub fn dt_from_name(s: &str) -> Option<DataType> {
+    DTYPES.iter().copied().find(|d| dt_name(*d) == s)
+}
+
+/// Elements are carried around as canonical 64-bit patterns.
+pub trait El: Copy + 'static {
+    fn from_bits64(b: u64) -> Self;
+    fn bits64(self) -> u64;
+}
+macro_rules! impl_el_int {
+    ($($t:ty),*) => {$(impl El for $t {
+        fn from_bits64(b: u64) -> Self { b as $t }
+        fn bits64(self) -> u64 { self as i64 as u64 }
+    })*};
+}
+impl_el_int!(i8, i16, i32, i64);
+macro_rules! impl_el_uint {
+    ($($t:ty),*) => {$(impl El for $t {
+        fn from_bits64(b: u64) -> Self { b as $t }
+        fn bits64(self) -> u64 { self as u64 }
+    })*};
+}
+impl_el_uint!(u8, u16, u32, u64);
+impl El for bool {
+    fn from_bits64(b: u64) -> Self {
+        b & 1 == 1
+    }
+    fn bits64(self) -> u64 {
+        self as u64
+    }
+}
+impl El for f32 {
+    fn from_bits64(b: u64) -> Self {
+        f32::from_bits(b as u32)
+    }
+    fn bits64(self) -> u64 {
+        self.to_bits() as u64
+    }
+}
+impl El for f64 {
+    fn from_bits64(b: u64) -> Self {
+        f64::from_bits(b)
+    }
+    fn bits64(self) -> u64 {
+        self.to_bits()
+    }
+}
+
+/// Expand `$body` once per (Value/View variant, Rust type).
+macro_rules! for_each_variant {
+    ($mac:ident) => {
+        $mac!(Bool, bool);
+        $mac!(Int8, i8);
+        $mac!(Int16, i16);
+        $mac!(Int32, i32);
+        $mac!(Int64, i64);
+        $mac!(UInt8, u8);
+        $mac!(UInt16, u16);
+        $mac!(UInt32, u32);
+        $mac!(UInt64, u64);
+        $mac!(Float32, f32);
+        $mac!(Float64, f64);
+    };
+}
+
+pub fn make_value(dt: DataType, shape: &[usize], bits: &[u64]) -> Value {
+    macro_rules! arm {
+        ($v:ident, $t:ty) => {
+            if dt == DataType::$v {
+                let data: Vec<$t> = bits.iter().map(|b| <$t as El>::from_bits64(*b)).collect();
+                return Value::from(Tensor::<$t>::from_data(shape, data));
+            }
+        };
+    }
+    for_each_variant!(arm);
+    unreachable!()
+}
+
+/// (dtype, shape, row-major element bit patterns) of a value.
+pub fn value_content(v: &Value) -> Option<(DataType, Vec<usize>, Vec<u64>)> {
+    macro_rules! arm {
+        ($v:ident, $t:ty) => {
+            if let Value::$v(t) = v {
+                return Some((DataType::$v, t.shape().to_vec(), t.iter().map(|x| x.bits64()).collect()));
+            }
+        };
+    }
+    for_each_variant!(arm);
+    None
+}
+
+#[derive(Clone, Debug, PartialEq)]
+pub enum Op {
+    Permute(Vec<usize>),
+    /// per axis (start, end, step)
+    Slice(Vec<(usize, usize, usize)>),
+    Broadcast(Vec<usize>),
+}
+
+impl Op {
+    fn kind(&self) -> &'static str {
+        match self {
+            Op::Permute(_) => "permute",
+            Op::Slice(_) => "slice",
+            Op::Broadcast(_) => "broadcast",
+        }
+    }
+    fn to_json(&self) -> Json {
+        match self {
+            Op::Permute(p) => json!({"permute": p}),
+            Op::Slice(s) => json!({"slice": s.iter().map(|t| vec![t.0, t.1, t.2]).collect::<Vec<_>>()}),
+            Op::Broadcast(s) => json!({"broadcast": s}),
+        }
+    }
+    fn from_json(j: &Json) -> Option<Op> {
+        let us = |v: &Json| v.as_array().map(|a| a.iter().map(|x| x.as_u64().unwrap_or(0) as usize).collect::<Vec<_>>());
+        if let Some(p) = j.get("permute") {
+            return Some(Op::Permute(us(p)?));
+        }
+        if let Some(p) = j.get("broadcast") {
+            return Some(Op::Broadcast(us(p)?));
+        }
+        let s = j.get("slice")?.as_array()?;
+        Some(Op::Slice(s.iter().filter_map(|t| us(t)).map(|t| (t[0], t[1], t[2])).collect()))
+    }
+}
+
+fn apply_ops<'a, T: Clone>(mut v: TensorView<'a, T>, ops: &[Op]) -> TensorView<'a, T> {
+    for op in ops {
+        v = match op {
+            Op::Permute(p) => v.permuted(p),
+            Op::Slice(items) => {
+                let items: Vec<SliceItem> = items.iter().map(|(s, e, st)| SliceItem::range(*s as isize, Some(*e as isize), *st as isize)).collect();
+                v.try_slice(items.as_slice()).expect("slice within bounds")
+            }
+            Op::Broadcast(shape) => v.broadcast(shape.as_slice()),
+        };
+    }
+    v
+}
+
+pub fn apply_ops_view<'a>(v: View<'a>, ops: &[Op]) -> View<'a> {
+    macro_rules! arm {
+        ($v:ident, $t:ty) => {
+            if let View::$v(t) = &v {
+                return View::$v(apply_ops(t.clone(), ops));
+            }
+        };
+    }
+    for_each_variant!(arm);
+    v
+}
+
+fn apply_ops_naive(mut a: Arr<u64>, ops: &[Op]) -> Arr<u64> {
+    for op in ops {
+        a = match op {
+            Op::Permute(p) => a.permuted(p),
+            Op::Slice(items) => {
+                let mut cur = a;
+                for (axis, (s, e, st)) in items.iter().enumerate() {
+                    let n = if e > s { (e - s).div_ceil(*st) } else { 0 };
+                    cur = cur.slice_axis(axis, *s, *st as isize, n);
+                }
+                cur
+            }
+            Op::Broadcast(shape) => a.broadcast(shape),
+        };
+    }
+    a
+}
+
+#[derive(Clone, Debug)]
+pub struct Src {
+    pub dt: DataType,
+    pub base_shape: Vec<usize>,
+    pub bits: Vec<u64>,
+    pub ops: Vec<Op>,
+}
+
+impl Src {
+    pub fn expected(&self) -> Arr<u64> {
+        apply_ops_naive(Arr::new(self.base_shape.clone(), self.bits.clone()), &self.ops)
+    }
+    pub fn layout_class(&self) -> String {
+        let mut k: Vec<&str> = self.ops.iter().map(|o| o.kind()).collect();
+        k.sort();
+        k.dedup();
+        if k.is_empty() { "contiguous".to_string() } else { k.join("+") }
+    }
+    pub fn to_json(&self) -> Json {
+        json!({"dtype": dt_name(self.dt), "base_shape": self.base_shape,
+               "bits": self.bits.iter().map(|b| format!("{:x}", b)).collect::<Vec<_>>(),
+               "ops": self.ops.iter().map(|o| o.to_json()).collect::<Vec<_>>()})
+    }
+    pub fn from_json(j: &Json) -> Option<Src> {
+        Some(Src {
+            dt: dt_from_name(j["dtype"].as_str()?)?,
+            base_shape: j["base_shape"].as_array()?.iter().map(|x| x.as_u64().unwrap_or(0) as usize).collect(),
+            bits: j["bits"].as_array()?.iter().map(|x| u64::from_str_radix(x.as_str().unwrap_or("0"), 16).unwrap_or(0)).collect(),
+            ops: j["ops"].as_array()?.iter().filter_map(Op::from_json).collect(),
+        })
+    }
+}
+
+fn special_bits(rng: &mut Rng, dt: DataType) -> u64 {
+    match dt {
+        DataType::Bool => rng.below(2) as u64,
+        DataType::Float32 => {
+            let specials = [f32::NAN.to_bits(), 0x7fa0_0001, 0xffc0_0000, f32::INFINITY.to_bits(), f32::NEG_INFINITY.to_bits(), 0, 0x8000_0000, 1, 0x8000_0001, f32::MAX.to_bits(), f32::MIN.to_bits(), f32::MIN_POSITIVE.to_bits()];
+            if rng.chance(1, 2) { *rng.choose(&specials) as u64 } else { rng.next_u32() as u64 }
+        }
+        DataType::Float64 => {
+            let specials = [f64::NAN.to_bits(), 0x7ff4_0000_0000_0001, 0xfff8_0000_0000_0000, f64::INFINITY.to_bits(), f64::NEG_INFINITY.to_bits(), 0, 1 << 63, 1, f64::MAX.to_bits(), f64::MIN_POSITIVE.to_bits()];
+            if rng.chance(1, 2) { *rng.choose(&specials) } else { rng.next_u64() }
+        }
+        _ => {
+            // integers: extremes and random; truncated to the type by from_bits64
+            let v = match rng.below(5) {
+                0 => 0,
+                1 => u64::MAX,
+                2 => 1 << 63,
+                3 => 0x7fff_ffff_ffff_ffff,
+                _ => rng.next_u64(),
+            };
+            // canonical form for the type
+            macro_rules! canon {
+                ($v:ident, $t:ty) => {
+                    if dt == DataType::$v {
+                        return <$t as El>::from_bits64(v).bits64();
+                    }
+                };
+            }
+            for_each_variant!(canon);
+            v
+        }
+    }
+}
+
+pub fn gen_src(rng: &mut Rng, dt: DataType) -> Src {
+    let rank = rng.urange(0, 5);
+    let base_shape: Vec<usize> = (0..rank).map(|_| if rng.chance(1, 25) { 0 } else { rng.urange(1, 4) }).collect();
+    let n = naive::numel(&base_shape);
+    let bits: Vec<u64> = (0..n).map(|_| special_bits(rng, dt)).collect();
+    let mut ops = Vec::new();
+    let mut shape = base_shape.clone();
+    for _ in 0..rng.below(4) {
+        match rng.below(3) {
+            0 if shape.len() >= 2 => {
+                let mut p: Vec<usize> = (0..shape.len()).collect();
+                rng.shuffle(&mut p);
+                shape = p.iter().map(|&i| shape[i]).collect();
+                ops.push(Op::Permute(p));
+            }
+            1 if !shape.is_empty() => {
+                let items: Vec<(usize, usize, usize)> = shape
+                    .iter()
+                    .map(|&d| {
+                        if d == 0 || rng.chance(1, 12) {
+                            let s = rng.urange(0, d);
+                            (s, rng.urange(s, d), rng.urange(1, 3))
+                        } else {
+                            let s = rng.urange(0, d - 1);
+                            (s, rng.urange(s + 1, d), rng.urange(1, 3))
+                        }
+                    })
+                    .collect();
+                shape = items.iter().map(|(s, e, st)| if e > s { (e - s).div_ceil(*st) } else { 0 }).collect();
+                ops.push(Op::Slice(items));
+            }
+            2 if shape.len() < 5 => {
+                // broadcast: prepend dims and expand size-1 dims
+                let extra = rng.urange(0, (5 - shape.len()).min(2));
+                let mut target: Vec<usize> = (0..extra).map(|_| rng.urange(1, 3)).collect();
+                for &d in &shape {
+                    target.push(if d == 1 && rng.chance(1, 2) { rng.urange(1, 3) } else { d });
+                }
+                if target != shape {
+                    shape = target.clone();
+                    ops.push(Op::Broadcast(target));
+                }
+            }
+            _ => {}
+        }
+    }
+    Src { dt, base_shape, bits, ops }
+}
+
+pub const FORMATS: [&str; 3] = ["npy", "npz", "safetensors"];
+
+/// Compare read-back content with the expectation. Returns what differs.
+fn compare(rep: &mut Report, dt: DataType, exp: &Arr<u64>, got: &Value) -> Option<String> {
+    let Some((gdt, gshape, gbits)) = value_content(got) else { return Some("dtype(unknown variant)".into()) };
+    if gdt != dt {
+        return Some(format!("dtype({}->{})", dt_name(dt), dt_name(gdt)));
+    }
+    if gshape != exp.shape {
+        return Some("shape".into());
+    }
+    if gbits.len() != exp.data.len() {
+        return Some("element_count".into());
+    }
+    for (a, b) in exp.data.iter().zip(&gbits) {
+        if a == b {
+            continue;
+        }
+        let same = match dt {
+            DataType::Float32 => {
+                let (x, y) = (f32::from_bits(*a as u32), f32::from_bits(*b as u32));
+                (x.is_nan() && y.is_nan()) || x == y
+            }
+            DataType::Float64 => {
+                let (x, y) = (f64::from_bits(*a), f64::from_bits(*b));
+                (x.is_nan() && y.is_nan()) || x == y
+            }
+            _ => false,
+        };
+        if same {
+            rep.count("float_bits_changed_but_equal(not judged)");
+        } else {
+            return Some("elements".into());
+        }
+    }
+    None
+}
+
+/// Expected key after an .npz round trip: one ".npy" suffix is dropped.
+fn npz_key(name: &str) -> String {
+    name.strip_suffix(".npy").unwrap_or(name).to_string()
+}
+
+const NAME_POOL: [&str; 22] = [
+    "a", "b", "weight", "layer.0.weight", "nested/dir/x", "a.npy", "x.npy.npy", "with space", "\u{e9}\u{4e16}\u{754c}", "UPPER", "a.b.c", "0", "-", "_", "tab\tname", "quote\"name", "brace{}", "x.npz", "long_name_long_name_long_name_long_name_long_name_long_name_long_name", "back\\slash", "dot.", "semi;colon",
+];
+
+#[derive(Clone, Debug)]
+pub struct RtCase {
+    pub format: String,
+    pub entries: Vec<(String, Src)>,
+    pub via_file: bool,
+}
+
+impl RtCase {
+    fn to_json(&self) -> Json {
+        json!({"mode": "roundtrip", "format": self.format, "via_file": self.via_file,
+               "entries": self.entries.iter().map(|(n, s)| json!({"name": n, "src": s.to_json()})).collect::<Vec<_>>()})
+    }
+    fn from_json(j: &Json) -> Option<RtCase> {
+        Some(RtCase {
+            format: j["format"].as_str()?.to_string(),
+            via_file: j["via_file"].as_bool().unwrap_or(false),
+            entries: j["entries"].as_array()?.iter().filter_map(|e| Some((e["name"].as_str()?.to_string(), Src::from_json(&e["src"])?))).collect(),
+        })
+    }
+}
+
+#[derive(Debug)]
+pub struct RtFail {
+    pub what: String,
+    pub entry: usize,
+    pub detail: String,
+}
+
+/// Execute one round trip. `Ok(false)`: the writer declined (error), nothing
+/// to compare.
+pub fn run_roundtrip(rep: &mut Report, c: &RtCase, tmp_dir: Option<&str>) -> Result<bool, RtFail> {
+    let values: Vec<Value> = c.entries.iter().map(|(_, s)| make_value(s.dt, &s.base_shape, &s.bits)).collect();
+    let expected: Vec<Arr<u64>> = c.entries.iter().map(|(_, s)| s.expected()).collect();
+    let fail = |what: &str, entry: usize, detail: String| RtFail { what: what.to_string(), entry, detail };
+    let views = || -> Vec<(String, View<'_>)> { c.entries.iter().zip(&values).map(|((n, s), v)| (n.clone(), apply_ops_view(v.view(), &s.ops))).collect() };
+    let path = tmp_dir.filter(|_| c.via_file).map(|d| format!("{}/rt.{}", d, c.format));
+    // Building the source views is the harness's own use of rten-tensor; a
+    // panic there says nothing about the serializers.
+    if catch(|| drop(views())).is_err() {
+        rep.count("harness_could_not_build_view(skipped)");
+        return Ok(false);
+    }
+    match c.format.as_str() {
+        "npy" => {
+            let (name, src) = &c.entries[0];
+            let _ = name;
+            let view = apply_ops_view(values[0].view(), &src.ops);
+            let got = if let Some(p) = &path {
+                match catch(|| npy::write_to_file(p, view)) {
+                    Err(m) => return Err(fail("panic:write", 0, m)),
+                    Ok(Err(_)) => return Ok(false),
+                    Ok(Ok(())) => {}
+                }
+                catch(|| npy::read_from_file(p))
+            } else {
+                let mut buf = Vec::new();
+                match catch(|| npy::write(&mut buf, view)) {
+                    Err(m) => return Err(fail("panic:write", 0, m)),
+                    Ok(Err(_)) => return Ok(false),
+                    Ok(Ok(())) => {}
+                }
+                rep.max("max_file_bytes", buf.len() as u64);
+                catch(|| npy::read(&buf[..]))
+            };
+            match got {
+                Err(m) => Err(fail("panic:read", 0, m)),
+                Ok(Err(e)) => Err(fail("read_error", 0, e.to_string())),
+                Ok(Ok(v)) => match compare(rep, src.dt, &expected[0], &v) {
+                    Some(w) => Err(fail(&w, 0, String::new())),
+                    None => Ok(true),
+                },
+            }
+        }
+        "npz" | "safetensors" => {
+            let npz_fmt = c.format == "npz";
+            let mut buf: Vec<u8> = Vec::new();
+            let wrote = if npz_fmt {
+                let mut cur = Cursor::new(Vec::new());
+                let r = catch(|| npz::write(&mut cur, views()));
+                buf = cur.into_inner();
+                r
+            } else {
+                catch(|| safetensors::write(&mut buf, views()))
+            };
+            match wrote {
+                Err(m) => return Err(fail("panic:write", 0, m)),
+                Ok(Err(e)) => {
+                    rep.count(&format!("write_declined.{}", c.format));
+                    let _ = e;
+                    return Ok(false);
+                }
+                Ok(Ok(())) => {}
+            }
+            rep.max("max_file_bytes", buf.len() as u64);
+            if let Some(p) = &path {
+                let _ = std::fs::write(p, &buf);
+            }
+            let all = if npz_fmt {
+                match &path {
+                    Some(p) => catch(|| npz::read_from_file(p)),
+                    None => catch(|| npz::read(Cursor::new(&buf[..]))),
+                }
+            } else {
+                match &path {
+                    Some(p) => catch(|| safetensors::read_from_file(p)),
+                    None => catch(|| safetensors::read(&buf[..])),
+                }
+            };
+            let map = match all {
+                Err(m) => return Err(fail("panic:read", 0, m)),
+                Ok(Err(e)) => return Err(fail("read_error", 0, e.to_string())),
+                Ok(Ok(m)) => m,
+            };
+            if map.len() != c.entries.len() {
+                return Err(fail("entry_count", 0, format!("wrote {} entries, read {}", c.entries.len(), map.len())));
+            }
+            for (i, (name, src)) in c.entries.iter().enumerate() {
+                let key = if npz_fmt { npz_key(name) } else { name.clone() };
+                let Some(v) = map.get(&key) else {
+                    return Err(fail("missing_entry", i, format!("key {:?} not among {:?}", key, map.keys().collect::<Vec<_>>())));
+                };
+                if let Some(w) = compare(rep, src.dt, &expected[i], v) {
+                    return Err(fail(&w, i, format!("entry {:?}", name)));
+                }
+                // single-array readers
+                let one = if npz_fmt { catch(|| npz::read_array(Cursor::new(&buf[..]), name)) } else { catch(|| safetensors::read_array(&buf[..], name)) };
+                match one {
+                    Err(m) => return Err(fail("panic:read_array", i, m)),
+                    Ok(Err(e)) => return Err(fail("read_array_error", i, e.to_string())),
+                    Ok(Ok(v)) => {
+                        if let Some(w) = compare(rep, src.dt, &expected[i], &v) {
+                            return Err(fail(&format!("read_array:{}", w), i, format!("entry {:?}", name)));
+                        }
+                    }
+                }
+            }
+            Ok(true)
+        }
+        _ => Ok(false),
+    }
+}
+
+fn gen_case(rng: &mut Rng, k: u64, tmp: bool) -> RtCase {
+    let format = FORMATS[(k % 3) as usize].to_string();
+    let n_entries = if format == "npy" { 1 } else { rng.urange(0, 8) };
+    let mut names: Vec<String> = Vec::new();
+    let mut entries = Vec::new();
+    for i in 0..n_entries {
+        // every dtype in turn, so that all are covered quickly
+        let dt = DTYPES[((k / 3 + i as u64) % 11) as usize];
+        let mut name = rng.choose(&NAME_POOL).to_string();
+        let norm = |n: &str| npz_key(n);
+        if names.iter().any(|x| norm(x) == norm(&name)) {
+            name = format!("{}_{}", name, i);
+        }
+        names.push(name.clone());
+        entries.push((name, gen_src(rng, dt)));
+    }
+    RtCase { format, entries, via_file: tmp && rng.chance(1, 8) }
+}
+
+fn shrink_rt(rep: &mut Report, c: &RtCase, f: &RtFail, tmp: Option<&str>) -> RtCase {
+    let still = |rep: &mut Report, cand: &RtCase| matches!(run_roundtrip(rep, cand, tmp), Err(ref g) if g.what == f.what);
+    // keep only the failing entry if that still fails
+    let mut cur = c.clone();
+    if cur.entries.len() > 1 {
+        let cand = RtCase { entries: vec![cur.entries[f.entry.min(cur.entries.len() - 1)].clone()], ..cur.clone() };
+        if still(rep, &cand) {
+            cur = cand;
+        }
+    }
+    // drop layout operations
+    for e in 0..cur.entries.len() {
+        let mut i = 0;
+        while i < cur.entries[e].1.ops.len() {
+            let mut cand = cur.clone();
+            cand.entries[e].1.ops.remove(i);
+            // dropping an op can invalidate later ops; catch that
+            let ok = catch(|| cand.entries[e].1.expected()).is_ok();
+            if ok && still(rep, &cand) {
+                cur = cand;
+            } else {
+                i += 1;
+            }
+        }
+    }
+    if cur.via_file {
+        let cand = RtCase { via_file: false, ..cur.clone() };
+        if still(rep, &cand) {
+            cur = cand;
+        }
+    }
+    cur
+}
+
+fn report_rt(rep: &mut Report, c: &RtCase, f: RtFail, tmp: Option<&str>) {
+    let s = shrink_rt(rep, c, &f, tmp);
+    let fin = match run_roundtrip(rep, &s, tmp) {
+        Err(g) => g,
+        _ => f,
+    };
+    let e = &s.entries[fin.entry.min(s.entries.len().saturating_sub(1))];
+    let what = if fin.what.starts_with("panic") { format!("{}:{}", fin.what, crate::c38::norm_panic(&fin.detail)) } else { fin.what.clone() };
+    let sig = format!("C34|roundtrip:{}|{}|{}|{}", s.format, dt_name(e.1.dt), e.1.layout_class(), what);
+    rep.violation(
+        sig,
+        format!("{} round trip of a {} tensor (base shape {:?}, ops {:?}, name {:?}): {} {}", s.format, dt_name(e.1.dt), e.1.base_shape, e.1.ops, e.0, fin.what, fin.detail),
+        s.to_json(),
+    );
+}
+
+/// .npy files as NumPy writes them (format versions 1-3, little / big /
+/// native endian, C or Fortran order), built by the harness from the format
+/// specification, must read back as the logical array. This goes beyond
+/// files written by rten itself; it is what decides `fortran_order` and
+/// byte-order handling in the reader.
+fn foreign_npy_case(rep: &mut Report, rng: &mut Rng, k: u64) {
+    let dt = DTYPES[(k % 11) as usize];
+    let size = match dt {
+        DataType::Bool | DataType::Int8 | DataType::UInt8 => 1usize,
+        DataType::Int16 | DataType::UInt16 => 2,
+        DataType::Int32 | DataType::UInt32 | DataType::Float32 => 4,
+        _ => 8,
+    };
+    let kind = match dt {
+        DataType::Bool => 'b',
+        DataType::Float32 | DataType::Float64 => 'f',
+        DataType::Int8 | DataType::Int16 | DataType::Int32 | DataType::Int64 => 'i',
+        _ => 'u',
+    };
+    let rank = rng.urange(0, 4);
+    let shape: Vec<usize> = (0..rank).map(|_| if rng.chance(1, 20) { 0 } else { rng.urange(1, 3) }).collect();
+    let n = naive::numel(&shape);
+    let bits: Vec<u64> = (0..n).map(|_| special_bits(rng, dt)).collect();
+    let fortran = rng.bool();
+    let order = if size == 1 { *rng.choose(&['|', '<', '>', '=']) } else { *rng.choose(&['<', '>', '=']) };
+    let big = order == '>' || (order == '=' && cfg!(target_endian = "big"));
+    let version = rng.urange(1, 3) as u8;
+    // data in file order
+    let logical = Arr::new(shape.clone(), bits.clone());
+    let file_order: Vec<u64> = if fortran && rank >= 2 {
+        // column-major: first index varies fastest = row-major walk of the reversed shape
+        let rshape: Vec<usize> = shape.iter().rev().copied().collect();
+        naive::indices(&rshape).iter().map(|ridx| *logical.at(&ridx.iter().rev().copied().collect::<Vec<_>>())).collect()
+    } else {
+        bits.clone()
+    };
+    let mut data = Vec::with_capacity(n * size);
+    for b in &file_order {
+        let le = b.to_le_bytes();
+        if big {
+            data.extend(le[..size].iter().rev());
+        } else {
+            data.extend_from_slice(&le[..size]);
+        }
+    }
+    let dims = match shape.len() {
+        0 => "()".to_string(),
+        1 => format!("({},)", shape[0]),
+        _ => format!("({})", shape.iter().map(|d| d.to_string()).collect::<Vec<_>>().join(", ")),
+    };
+    let file = c34mal::npy_file(version, &format!("{}{}{}", order, kind, size), fortran, &dims, &data);
+    rep.eval();
+    rep.count("foreign_npy_files");
+    rep.count(&format!("foreign_npy.{}.{}", if fortran { "fortran" } else { "c_order" }, if big { "big_endian" } else { "little_endian" }));
+    let got = catch(|| npy::read(&file[..]));
+    let what = match got {
+        Err(m) => Some(format!("panic:{}", crate::c38::norm_panic(&m))),
+        Ok(Err(e)) => Some(format!("read_error:{}", panic_class(&e.to_string()))),
+        Ok(Ok(v)) => compare(rep, dt, &logical, &v),
+    };
+    if n >= 2 {
+        rep.nontrivial(&("foreign", file.clone()));
+    }
+    if let Some(w) = what {
+        rep.violation(
+            format!("C34|npy_spec|{}|{}|{}", if fortran && rank >= 2 { "fortran_order" } else { "c_order" }, if big && size > 1 { "big_endian" } else { "little_endian" }, w),
+            format!("a NumPy-format .npy file (version {}, descr {}{}{}, fortran_order {}, shape {}) does not read back as the array it encodes: {}", version, order, kind, size, fortran, dims, w),
+            json!({"mode": "foreign_npy", "hex": to_hex(&file), "dtype": dt_name(dt), "shape": shape, "bits": bits.iter().map(|b| format!("{:x}", b)).collect::<Vec<_>>()}),
+        );
+    }
+}
+
+fn replay_foreign(rep: &mut Report, w: &Json) {
+    let file = from_hex(w["hex"].as_str().unwrap_or(""));
+    let dt = dt_from_name(w["dtype"].as_str().unwrap_or("f32")).unwrap_or(DataType::Float32);
+    let shape: Vec<usize> = w["shape"].as_array().map(|a| a.iter().map(|x| x.as_u64().unwrap_or(0) as usize).collect()).unwrap_or_default();
+    let bits: Vec<u64> = w["bits"].as_array().map(|a| a.iter().map(|x| u64::from_str_radix(x.as_str().unwrap_or("0"), 16).unwrap_or(0)).collect()).unwrap_or_default();
+    let logical = Arr::new(shape, bits);
+    rep.eval();
+    let what = match catch(|| npy::read(&file[..])) {
+        Err(m) => Some(format!("panic:{}", crate::c38::norm_panic(&m))),
+        Ok(Err(e)) => Some(format!("read_error:{}", panic_class(&e.to_string()))),
+        Ok(Ok(v)) => compare(rep, dt, &logical, &v),
+    };
+    if let Some(wh) = what {
+        rep.violation(format!("C34|npy_spec|{}|replay|{}", dt_name(dt), wh), format!("replayed .npy file does not read back as the array it encodes: {}", wh), w.clone());
+    }
+}
+
+pub const RULE: &str = "Round trips: tensors of all 11 element types, ranks 0-5 with dims 0-4, special float/integer values, sources built with rten-tensor as contiguous / permuted / strided-sliced / broadcast views (expected elements computed independently with the naive array model), written with npy::write, npz::write (0-8 entries, awkward names), safetensors::write (in memory and through files) and read back with read / read_array / read_from_file. NumPy-format .npy files built from the format specification (versions 1-3, little/big/native endian, C and Fortran order) must read back as the array they encode. Malformed files: valid files and hand-built headers mutated at header length fields, descr / fortran_order / shape strings, zip end-of-central-directory and central-directory fields, safetensors header length, JSON dtype / shape / data_offsets, plus truncations and byte flips; read through the same public readers in child processes (catch_unwind, allocation monitor, per-case alarm). A round-trip case is non-trivial when the source has at least 2 elements or a non-contiguous layout; a malformed case when the mutant kept its outer framing (npy magic, zip end-of-central-directory signature, safetensors header length within the file) or the reader returned a value.";
+
+pub fn run(args: &Args) {
+    unsafe { std::env::set_var("RUST_BACKTRACE", "0") };
+    let mut rep = Report::new("C34", "loadfuzz", args, RULE);
+    rep.max_per_group = 16;
+    let miri = cfg!(miri);
+    let tmp_dir = if miri {
+        None
+    } else {
+        let d = format!("/verif/tmp/{}", std::process::id());
+        let _ = std::fs::create_dir_all(&d);
+        Some(d)
+    };
+    let tmp = tmp_dir.as_deref();
+
+    if let Some(path) = &args.replay {
+        let text = std::fs::read_to_string(path).expect("read replay file");
+        let j: Json = serde_json::from_str(&text).expect("parse replay file");
+        let w = if j.get("witness").is_some() { j["witness"].clone() } else { j };
+        if w["mode"].as_str() == Some("foreign_npy") {
+            replay_foreign(&mut rep, &w);
+        } else if w["mode"].as_str() == Some("roundtrip") {
+            let c = RtCase::from_json(&w).expect("roundtrip witness");
+            rep.eval();
+            if let Err(f) = run_roundtrip(&mut rep, &c, tmp) {
+                report_rt(&mut rep, &c, f, tmp);
+            }
+        } else {
+            c34mal::replay(&mut rep, &w);
+        }
+        if let Some(d) = &tmp_dir {
+            let _ = std::fs::remove_dir_all(d);
+        }
+        rep.finish();
+        return;
+    }
+
+    let n_rt = args.budget(if miri { 45 } else { 9000 }, if miri { 450 } else { 600_000 });
+    let base = (args.shard as u64) << 40;
+    let mut corpus: Vec<(String, Vec<u8>)> = Vec::new();
+    for k in 0..n_rt {
+        let mut rng = Rng::derive(args.seed, 0x34_0000_0000 + base + k);
+        let c = gen_case(&mut rng, k, tmp.is_some());
+        rep.eval();
+        rep.count(&format!("roundtrips.{}", c.format));
+        for (_, s) in &c.entries {
+            rep.count(&format!("dtype.{}", dt_name(s.dt)));
+            rep.count(&format!("layout.{}", s.layout_class()));
+            rep.count(&format!("rank.{}", s.expected().shape.len()));
+            if naive::numel(&s.expected().shape) == 0 {
+                rep.count("empty_tensors");
+            }
+        }
+        rep.count(&format!("entries.{}", c.entries.len()));
+        if c.via_file {
+            rep.count("via_file");
+        }
+        match run_roundtrip(&mut rep, &c, tmp) {
+            Ok(true) => {
+                rep.count("roundtrip_equal");
+                if c.entries.iter().any(|(_, s)| !s.ops.is_empty() || s.bits.len() >= 2) {
+                    rep.nontrivial(&(c.format.clone(), c.entries.iter().map(|(n, s)| (n.clone(), dt_name(s.dt), s.base_shape.clone(), s.bits.clone(), format!("{:?}", s.ops))).collect::<Vec<_>>()));
+                }
+                if rep.wants_sample() && c.entries.iter().any(|(_, s)| s.ops.len() >= 2) {
+                    rep.sample(|| c.to_json());
+                }
+            }
+            Ok(false) => rep.count("writer_declined(no result)"),
+            Err(f) => {
+                rep.count(&format!("roundtrip_failed.{}.{}", c.format, f.what));
+                report_rt(&mut rep, &c, f, tmp);
+            }
+        }
+        // keep some valid files as seeds for the malformed part
+        if corpus.len() < 120 && k % 7 == 0 {
+            if let Some(bytes) = c34mal::encode(&c) {
+                corpus.push((c.format.clone(), bytes));
+            }
+        }
+    }
+    let n_foreign = args.budget(if miri { 22 } else { 1100 }, if miri { 110 } else { 55_000 });
+    for k in 0..n_foreign {
+        let mut rng = Rng::derive(args.seed, 0x34_4000_0000 + base + k);
+        foreign_npy_case(&mut rep, &mut rng, k);
+    }
+    let n_mal = args.budget(if miri { 30 } else { 9000 }, if miri { 300 } else { 1_400_000 });
+    c34mal::run(&mut rep, args, corpus, n_mal);
+    if let Some(d) = &tmp_dir {
+        let _ = std::fs::remove_dir_all(d);
+    }
+    rep.finish();
+}
